@@ -13,8 +13,8 @@ EXPLANATION = (
     "token dicts identical, HTML identical after mapping the documented places."
 )
 BOUNDS = {
-    "quick": "(1) s = 2 free characters; (2) 11 inline fragments x 1 free character x 5 contexts; (3) 7 scaffolds with 1 free character, xhtmlOut+breaks symbolic (highlight+langPrefix on the fence scaffolds)",
-    "thorough": "(1) 3 free characters; (2) 2 free characters; (3) 2 free characters with all four options symbolic, FREE(3) documents",
+    "quick": '(1) s = 2 free characters; (2) 3 inline fragments (code span, escape, plain text) x 1 free character, paragraph vs each of heading/list item/block quote/table cell; (3) 3 documents with 1 free character: xhtmlOut+breaks symbolic, and highlight+langPrefix(1 free character) symbolic on the fence document',
+    "thorough": 'all quick jobs (core) plus the deeper families of thorough_extra() (not core): more free characters, the commonmark preset, the contexts the quick tier had to shed (DESIGN.md 10.5)',
 }
 OUTSIDE = "fragments/contexts beyond the menus; typographer on; custom renderers"
 ASSUMPTIONS = ["(2) the statement's syntactic guards are assumptions: t trimmed, first character alphanumeric, no trailing '#', no | \\ ` in table cells; free characters exclude newline",
